@@ -60,6 +60,8 @@ def files():
     m("ByKind", P + ".KindRequest", P + ".Thing", http=("post", "/v1/{type=kinds/*}/things"), body="format")
     # ... and one whose template contains the variable's own (reserved) name as a substring
     m("ByType", P + ".KindRequest", P + ".Thing", http=("get", "/v1/{type=types/*/subtypes/*}/things"))
+    # a nested path variable whose PARENT segment is a reserved word (`format` is the message-typed field of KindRequest)
+    m("ByFormat", P + ".KindRequest", P + ".Thing", http=("get", "/v1/{format.id=formats/*}/things"))
     # a REQUIRED reserved-word field as the path variable
     G.add_message(fd, "ReqKindRequest", [G.F("type", 1, T.TYPE_STRING, **R), G.F("note", 2, T.TYPE_STRING)])
     m("ByReqType", P + ".ReqKindRequest", P + ".Thing", http=("get", "/v1/{type=rtypes/*}"))
@@ -190,6 +192,7 @@ REQUESTS = {
                {"parent": "buildings/b1", "zone": "z1", "rack": 4}],
     "ByType": [{"type": "types/t1/subtypes/s2", "note": "n"}],
     "ByReqType": [{"type": "rtypes/r1", "note": "n"}, {"type": "rtypes/r2"}],
+    "ByFormat": [{"format": {"id": "formats/f1", "level": 2}, "note": "n"}, {"format": {"id": "formats/f2"}}],
     "ByKind": [{"type": "kinds/k1", "format": {"id": "f", "level": 2}, "note": "n"}, {"type": "kinds/k2"}],
 }
 
